@@ -90,11 +90,19 @@ struct CaseResult
 };
 
 static int         g_case_timeout_s = 60; // wall-clock watchdog per case: a call that never returns ends the worker (exit 98)
-static void        on_case_alarm(int)
+static unsigned long g_alarm_last_seq = ~0ul;
+static void          on_case_alarm(int)
 {
-    static const char msg[] = "HANG: a case exceeded its wall-clock budget (a library call did not return)\n";
-    if (write(2, msg, sizeof msg - 1) < 0) {}
-    _exit(98);
+    // Only a single library call that is still in flight after a whole watchdog period is a hang; a slow harness
+    // (large candidate sets, a loaded machine, valgrind) keeps making calls and merely re-arms the alarm.
+    if (vh::g_in_library_call && vh::g_library_call_seq == g_alarm_last_seq)
+    {
+        static const char msg[] = "HANG: one library call has been running for a whole watchdog period (it does not return)\n";
+        if (write(2, msg, sizeof msg - 1) < 0) {}
+        _exit(98);
+    }
+    g_alarm_last_seq = vh::g_in_library_call ? vh::g_library_call_seq : ~0ul;
+    alarm((unsigned)g_case_timeout_s);
 }
 static int         g_journal_fd = -1;
 static uint64_t    g_case_index = 0;
@@ -142,7 +150,7 @@ static void run_audit(ICache* c, const Cfg& cfg, const State* skip_state, bool s
         if (skip_u && skip_state && skip_state->k[(size_t)k].st == EXPU)
             continue;
         Op op = audit_op(cfg.kind, k);
-        c->apply(op, r);
+        guarded_apply(c, op, r);
         rows[(size_t)k].looked = true;
         rows[(size_t)k].val    = r.vals.empty() ? std::nullopt : r.vals[0];
         rows[(size_t)k].cnt    = r.cnt;
@@ -243,7 +251,7 @@ struct Runner
                 vclock::set(op.ttl);
         }
         else if (op.kind != NOPK)
-            c->apply(op, res);
+            guarded_apply(c, op, res);
     }
 
     // ---- MODEL mode: one case -------------------------------------------------------------------
@@ -669,14 +677,18 @@ int main(int argc, char** argv)
     R.opt = opt;
 
     if (!opt.replay.empty())
+    {
+        alarm((unsigned)g_case_timeout_s); // the same in-flight-call watchdog applies to a replay
         return replay_main(R, opt.replay);
+    }
 
     uint64_t base = mix(mix(opt.seed, hash_str(opt.tag)), hash_str(std::string(kind_names[opt.kind]) + "/" + opt.mode));
     for (uint64_t i = (uint64_t)opt.worker; i < opt.cases; i += (uint64_t)opt.nworkers)
     {
         if (i < opt.start)
             continue;
-        g_case_index  = i;
+        g_case_index     = i;
+        g_alarm_last_seq = ~0ul;
         alarm((unsigned)g_case_timeout_s);
         uint64_t   cs = mix(base, i);
         CaseResult cr;
